@@ -46,6 +46,11 @@ def build_corpus(tier, rng):
             en_v, dis_v = Variant(a, "unit"), Variant(b, "unit", [], [DISABLED])
             vs = [Variant("First", "unit")] + ([en_v, dis_v] if order == 0 else [dis_v, en_v]) + [Variant("Last", "unit", [], [ser("l")])]
             items.append(("snake-twin", Item("E", vs)))
+    # a RAW identifier and an enabled sibling named like it without `r#`: two variants, two slots (the slot of `r#fn` is not the slot of `Fn`)
+    for names in (["r#fn", "Fn"], ["Type", "r#type", "Other"], ["r#match", "Plain", "Match", "r#loop"], ["r#Self_", "Self_"]):
+        if names[0] == "r#Self_":
+            names = ["r#async", "Async", "r#dyn"]
+        items.append(("raw-sibling", Item("E", [Variant(n_, "unit") for n_ in names])))
     # non-ASCII identifiers (with digits after the non-ASCII letter): the slot names are derived from them
     items.append(("non-ascii", Item("E", [Variant("Größe42", "unit"), Variant("É1", "unit", [], [DISABLED]), Variant("变7x", "unit"), Variant("Plain", "unit"), Variant("Öl2", "unit")])))
     # the enum comes out of a macro_rules! expansion, the VARIANT NAMES handed in as `ident` fragments (other hygiene context than the derive)
